@@ -1,6 +1,7 @@
 package main
 
 import (
+	"regexp"
 	"fmt"
 	"go/types"
 	"sort"
@@ -245,9 +246,20 @@ func (c *Ctx) declGlobal(key, decl string) {
 	c.decls = append(c.decls, decl)
 }
 
+var qvarRe = regexp.MustCompile(`[A-Za-z_][A-Za-z_0-9.]*!q[0-9]+`)
+
 func (c *Ctx) assume(s *State, t string) {
 	if t == "" || t == "true" {
 		return
+	}
+	// side facts produced while evaluating the body of a quantifier mention its bound variable free: they cannot be
+	// stated outside the quantifier and are dropped (dropping an assumption is always sound)
+	if strings.Contains(t, "!q") {
+		for _, v := range qvarRe.FindAllString(t, -1) {
+			if !strings.Contains(t, "(("+v+" ") && !strings.Contains(t, " ("+v+" ") {
+				return
+			}
+		}
 	}
 	s.cmds = append(s.cmds, "(assert "+t+")")
 }
